@@ -220,16 +220,24 @@ class TriangularLinearOperator(LinearOperator, _TriangularLinearOperatorBase):
             right_tensor = right_tensor.unsqueeze(-1)
             squeeze = True
 
-        if isinstance(self._tensor, DenseLinearOperator):
+        tensor = self._tensor
+        base = getattr(tensor, "base_linear_op", None)
+        if isinstance(tensor, DenseLinearOperator):
             res = torch.linalg.solve_triangular(self.to_dense(), right_tensor, upper=self.upper)
-        elif isinstance(self._tensor, BatchRepeatLinearOperator):
-            # the left factor is applied once, below
-            res = self._tensor.base_linear_op.solve(right_tensor)
-            # TODO: Proper broadcasting
-            res = res.expand(self._tensor.batch_repeat + res.shape[-2:])
+        elif isinstance(tensor, BatchRepeatLinearOperator) and isinstance(base, _TriangularLinearOperatorBase):
+            # (the left factor is applied once, below)
+            res = base.solve(right_tensor)
+            batch_shape = torch.broadcast_shapes(self.batch_shape, res.shape[:-2])
+            res = res.expand(*batch_shape, *res.shape[-2:])
+        elif isinstance(base, _TriangularLinearOperatorBase) and hasattr(tensor, "_add_batch_dim"):
+            # block operator over triangular blocks: block-wise triangular solves
+            res = tensor._solve(right_tensor)
+        elif isinstance(tensor, _TriangularLinearOperatorBase):
+            res = tensor.solve(right_tensor)
         else:
-            # TODO: Can we be smarter here?
-            res = self._tensor.solve(right_tensor=right_tensor)
+            # any other representation of the triangular matrix (e.g. a constant multiple of a dense factor): the
+            # wrapped operator's own `solve` is the solve of a positive definite matrix and must not be used here
+            res = torch.linalg.solve_triangular(self.to_dense(), right_tensor, upper=self.upper)
 
         if squeeze:
             res = res.squeeze(-1)
